@@ -46,6 +46,11 @@ def run_in_child(fn, k=None, only=None):
         code = 99
         try:
             os.close(r)
+            try:
+                import ctypes
+                ctypes.CDLL("libc.so.6").prctl(1, 9, 0, 0, 0)      # die with the worker
+            except Exception:
+                pass
             tr = _Tracer(k if k is not None else -1, only)
             tr.report_fd = w
             sys.settrace(tr.glob)
